@@ -338,6 +338,16 @@ def tasks(tier):
                            extra=dict(x, bounded=f'chunk of {mins} minutes, 2 resting orders, fills without hook effects'),
                            overrides=dict(ov), max_paths=200000))
     ts.append(Task('flush.drains', t_flush_drains, extra=dict(x), overrides=dict(ov)))
+    # shared with C08 / C07: the match loop keeps the candidates in path order over the part of the minute that is left, and
+    # the minute handed to it is normalised to the previous close (an order priced in a close->open gap is reachable)
+    import props.C08 as P8
+    import props.C07 as P7
+    for n in (1, 2):
+        ts.append(Task(f'protocol.n{n}', P8.t_protocol(n), extra=dict(x, bounded=f'{n} resting orders + one reaction order'), overrides=dict(ov),
+                       max_paths=200000))
+    ts.append(Task('fixed-jump', P7.t_fixed_jump, extra=dict(x, spec_mod=P7.SPEC), overrides=dict(ov)))
+    ts.append(Task('protocol.chunk', P8.t_protocol_chunk(2), extra=dict(x, bounded='chunk of 2 minutes, one resting order then two candidates after each fill'),
+                   overrides=dict(ov), max_paths=400000))
     for s_ in ('_step_simulator', '_skip_simulator'):
         ts.append(Task(f'flush.{s_}', t_flush(s_), extra=dict(x), overrides=dict(ov), invariants={}))
     return ts
